@@ -77,10 +77,10 @@ CLAIMED.update({
             "C16_history (any operation sequence: each of the four sequences equals the plain-list fold), C16_filter, C16_filter_by_name, C16_len, C16_get_registers (permutation of all elements, ascending by sort key, stable per key) are proved for all histories and lists. The real RegisterList is compared with the model after every operation (Len) and at the end (four sequences, GetRegisters) on all sequences up to length 3/4 over 12 operations and random histories up to length 200; the combined view is also judged directly.",
             "Trusted: Coq kernel, extraction, OCaml driver, Go harness. sort.SliceStable is modelled by a stable insertion sort (result specified by the theorem, not by the algorithm). Registers come from the exported families; predicates from fixed families.",
             "DESIGN.md 4/C16"),
-    "C17": ("Coq theorem over an object-identity model of the copy discipline (partial by nature) + harness run of every lookup function x mutation history x later calls",
-            "C17_private_partial: in the model where each lookup allocates a fresh copy and callers address objects only, every later lookup returns the original data, for every history. Whether the Go code follows that discipline (no shared maps or backing arrays) cannot be expressed in a pure model; it is established by the run: product string map, 23 IntToStringMaps, Fields()/Decode() incl. raw value 0, per-product register lists of every class checked against every other product after each of eight list mutations, family lists.",
-            "Aliasing is runtime behaviour of Go's memory: the theorem documents the discipline, the harness carries the claim (labelled partial in the evidence).",
-            "DESIGN.md 4/C17"),
+    "C17": ("Coq alias analysis with soundness theorem over an IR transcribed from the Go source on every run (veproduct, veconst) + object-identity model + harness run of every lookup function x mutation history x later calls",
+            "C17_lookups_fresh: every function of veproduct and veconst that returns a map or slice (30: GetStringMap, 23 IntToStringMap, Decode, Fields), transcribed into the alias IR by gvgen alias from the current source, is accepted by the Coq check fun_ok; C17_fresh_sound: an accepted function, on every run of its flattened body (statements in any order, any number of times), stores nothing in a package-level variable, returns only objects allocated by that call and writes to nothing older, so what a caller receives is reachable from nowhere else; C17_lookups_covered: the IR contains the lookup functions the property names (checked against the T-obs factory tables). The harness run (product string map, 23 IntToStringMaps, Fields()/Decode() incl. raw value 0, per-product register lists of every class checked against every other product after each of eight list mutations, family lists; the result of the very first call of the process is mutated too) supplies failing histories and covers veregister, which is outside the IR.",
+            "Trusted: Coq kernel, the alias transcriber harness/cmd/gvgen/alias.go (which expressions allocate, which statements store references; unknown statements are rejected), Go harness. Partial: register lists (veregister) by the harness only; the inter-procedural step of the theorem is relative to an oracle for callee results.",
+            "DESIGN.md 0.2/C17, 4/C17"),
 })
 
 TGEN_NOTE = ("Trusted: Coq kernel, the GoLite->Gallina translator harness/cmd/gvgen (run on /repo/bleparser on every check; integer typing from go/types; stops on any "
